@@ -536,7 +536,9 @@ def ev(t, rows, env: Env):
         def clip(x, lo, hi):
             if x is None:
                 return None
-            return min(max(x, lo), hi)
+            r = min(max(x, lo), hi)
+            # the result has the common type of the three arguments
+            return float(r) if any(isinstance(v, float) for v in (x, lo, hi)) and not isinstance(r, bool) else r
         return _lift(clip, [ev(a, rows, env) for a in t[1:4]], n)
     if h in ("hmax", "hmin"):
         f = max if h == "hmax" else min
@@ -946,8 +948,7 @@ def typeof(t, env) -> str:
             return "float"
         _terr(f"{h}({ts[0]})")
     if h == "clip":
-        lca(ts)
-        return ts[0]
+        return lca(ts)
     if h == "case":
         conds = [typeof(c, env) for c, _ in t[1]]
         for c in conds:
@@ -1017,7 +1018,19 @@ class Model:
             out.append(self.step(out, e))
         return out
 
-    def side(self, side):
+    def side(self, side, main_states=None):
+        if "at" in side:
+            # the table the main history had after ``at`` events, aliased: the operand shares every
+            # verb node with the main table
+            base = main_states[side["at"]]
+            if isinstance(base, Reject):
+                raise Disabled("side refers to a rejected state")
+            if base.group:
+                raise Disabled("side refers to a grouped state")
+            states = [self._alias(base, 0, keep=False, name=side["alias"] if isinstance(side.get("alias"), str) else None)]
+            for e in side.get("hist", []):
+                states.append(self.step(states, e))
+            return states
         st = self.source(side["src"])
         states = [st]
         if side.get("alias"):
@@ -1281,7 +1294,7 @@ class Model:
 
     # -- join ----------------------------------------------------------------------------
     def _v_join(self, st, states, e):
-        rstates = self.side(e[1])
+        rstates = self.side(e[1], states)
         rt = rstates[-1]
         how = e[2]
         opts = e[4] if len(e) > 4 else {}
@@ -1306,9 +1319,31 @@ class Model:
                     for c in _colrefs(o):
                         on_cids.add(env.resolve(c))
             if how == "full":
+                # every predicate has to be an equality between an expression over one table and an
+                # expression over the other table (or a constant)
+                rcids = set(rt.cols)
+
+                def key_ok(t):
+                    if t[0] == "and":
+                        return key_ok(t[1]) and key_ok(t[2])
+                    if t[0] != "eq":
+                        return False
+                    sides = []
+                    for arg in t[1:3]:
+                        cids = {env.resolve(c) for c in _colrefs(arg)}
+                        if not cids:
+                            sides.append(None)
+                        elif cids <= rcids:
+                            sides.append(True)
+                        elif not (cids & rcids):
+                            sides.append(False)
+                        else:
+                            return False
+                    return sides[0] != sides[1]
+
                 for o in on_terms:
-                    if o[0] == "term" and not _only_equalities(o[1]):
-                        raise Reject("ValueError", "full join needs equality predicates")
+                    if o[0] == "term" and not key_ok(o[1]):
+                        raise Reject("ValueError", "full join needs equality predicates between the two tables")
         # names
         left_names = st.names()
         right_names = rt.names()
@@ -1397,7 +1432,7 @@ class Model:
 
     # -- union ---------------------------------------------------------------------------
     def _v_union(self, st, states, e):
-        rstates = self.side(e[1])
+        rstates = self.side(e[1], states)
         rt = rstates[-1]
         distinct = bool(e[2])
         if st.group or rt.group:
